@@ -133,6 +133,7 @@ SPEC = {
         "the object-cache theorem covers the staking-record cache (GetStakingRecordValue / AddStakingRecord / updateStakingTrie / ResetStakingTrie and the pending-total check); account and validator object caches are covered by the carried-StateDB differential only",
         "side-chain import is driven on a node whose database already holds the fork's blocks and their transaction lookup entries, with forks of at most 8 blocks and evidence look-back blocks on the canonical prefix; without that preparation the path fails in ways listed as open findings / described in fixes/C06_side_chain_*.md",
         "block context: the EVM applies the GetHash function pointwise (exec_reads_hashes_pointwise); the ancestor-hash cache, if any, agrees with the ancestry of the block being executed (hash_memo_ok; per-message cache in the code as it is); the harness executes siblings alternately in one process and imports both branches in both orders with block-context readers at the same heights",
+        "importer pre-history = restart: covered by the harness only (an importer stopped and reopened from its database - new BlockChain, state database, trie-node cache and staking module - at period ends and random block boundaries must import the remaining blocks with the builder's receipts, no panic); persistence of out-of-trie blobs is C10's subject in the model",
         "gas pool: the outcome of applying a candidate (applied / which failure, gas handed back) is an input of the pool model; the block-level theorems treat applicability as one oracle on both sides, which C06_gas_pool_never_underflows justifies for the pool; the worker's loop break below 21000 and the pool refusal are modelled, the interrupt is not",
         "forks: endStakingPeriod reads the node's transaction lookup at the pending hashes of the staking records only (period_end_framed); reorg bookkeeping (canonical number index, lookup deletion) and header verification of side-chain blocks are outside the model and covered by the harness' two-branch histories",
         "Go map keys are distinct (NoDup hypotheses of the keyed sites); blobs are content-addressed (Commit site)",
